@@ -61,15 +61,17 @@ CLAIMED["C03"] = {
     "technique": "Coq proof (definitional refinement + locality lemmas) + differential correspondence (exhaustive adversarial alphabet)",
 }
 CLAIMED["C01"] = {
-    "text": "Theorems (closed): for every layout of non-overlapping fields in any order and every fitting value list, reading the written "
+    "text": "Theorems: for every layout of non-overlapping fields in any order and every fitting value list, reading the written "
             "line returns per field the re-read rendering, whatever the reading line's slots held; canonical forms: integers unchanged, "
-            "literals trimmed, missing -> None/'' , dates truncated to the format (year >= 1000), floats in F notation = the double "
-            "nearest to the emitted decimal N/10^d with d <= declared decimals and 2|N*den-num| <= den (exact half unit); the only "
-            "decimal mark is the configured separator; text stability for int/literal/missing/date fields and, for lines, under the "
-            "explicit per-field hypothesis stable_field (PARTIAL for floats: nearest-point property of rn64 not proved; E notation "
-            "is covered by the correspondence and the exact-Fraction oracle only); setters = constructor. Refuted for the code as found.",
-    "note": BASE_NOTE + "Float text stability and E-notation bounds rest on the correspondence + exact rational oracle, not on a theorem.",
-    "technique": "Coq proof (frame + span lemmas, printer/parser inverses for int/fixed-point/date text, exact half-even bound) + differential correspondence",
+            "literals trimmed, missing -> None/'' , dates truncated to the format (year >= 1000), floats = the double nearest to the "
+            "emitted decimal, which is within exactly half a unit of its last digit (F: N/10^d with d <= declared decimals; E: "
+            "declared+1 significant digits), only the configured separator as decimal mark; setters = constructor; text stability "
+            "for int/literal/missing/date fields (closed) and for F-notation float fields for EVERY finite double (C01real.v, via Flocq: "
+            "rn64 is IEEE round-to-nearest-even, decimal rounding is idempotent through the nearest double; depends on the stdlib's 4 "
+            "real-number axioms). E-notation text stability is covered by the correspondence and the exact-Fraction oracle only. "
+            "Refuted for the code as found.",
+    "note": BASE_NOTE + "Axioms: none except in C01real.v (ClassicalDedekindReals.sig_not_dec, sig_forall_dec, functional_extensionality_dep, Classical_Prop.classic).",
+    "technique": "Coq proof (frame + span lemmas, printer/parser inverses for int/fixed/scientific/date text, exact half-even bounds, Flocq bridge for nearest-double idempotence) + differential correspondence",
 }
 CLAIMED["C04"] = {
     "text": "Theorems (closed): for every register list and text content the loop terminates within |content|+1 steps, yields exactly the "
